@@ -18,7 +18,10 @@ RULE = (
 	'final line end, member outside its declaration, struct without members, wrong attribute arity) x every applicable site (quick tier: up to 4 '
 	'sites per document and operator, chosen from VERIF_SEED); plus the three operators that move a line end (join-lines / join-lines-flush: the '
 	'line end between two neighbouring lines removed, indentation of the second kept / dropped, sampled per class of the two lines - code, comment, '
-	'attribute, header, member, import, blank; split-line: a line end inserted in front of a token), whose results are ill-formed exactly when the '
+	'attribute, header, member, import, blank; split-line: a line end inserted in front of a token) and the three near-miss operators built from '
+	'the legal spellings (near-miss-spacing: the blank of `not in` / `not equals` / `not pad_last` / `abstract struct` / `inline struct` removed, '
+	'doubled, turned into a tab; respace: the same at every gap between two tokens, a blank inserted where there is none; near-miss-word: every word '
+	'of the grammar capitalised, upper-cased, truncated, doubled), whose results are ill-formed exactly when the '
 	'Lean language model rejects them. A case is distinct by the corrupted text; non-trivial = the real parser ran on it. '
 	'Command line: the corrupted text as a file reached through imports of a valid root, in six layouts: nested directory; a name that differs '
 	'only in letter case from an earlier well-formed import, from the root, in a directory component; a name equal to an earlier one only under '
@@ -137,13 +140,14 @@ class Corruptor:
 					picked = ctx.rng.sample(picked, 8)
 			else:
 				classes = None
-				picked = ctx.rng.sample(range(count), min(count, 60 if thorough else 5))
+				quota = {'near-miss-spacing': (12, 150), 'respace': (6, 60), 'near-miss-word': (8, 80)}.get(operator, (5, 60))
+				picked = ctx.rng.sample(range(count), min(count, quota[1] if thorough else quota[0]))
 			for site in sorted(picked):
 				answer = ctx.driver.ask(f'variant {operator} {site} {sx(text)}')
 				encoded, model_verdict = answer.split(':')
 				corrupted = bytes.fromhex(encoded).decode('utf8') if '-' != encoded else ''
 				verdict = reject_verdict(corrupted)
-				kind = f'{line_kind(lines[site])}+{line_kind(lines[site + 1])}' if classes is not None else 'split'
+				kind = f'{line_kind(lines[site])}+{line_kind(lines[site + 1])}' if classes is not None else 'site'
 				case = {'operator': operator, 'site': site, 'document': text, 'corrupted': corrupted, 'label': label, 'class': kind}
 				ctx.case(corrupted, {'operator': operator, 'site': site, 'label': label, 'verdict': verdict[:2], 'model': model_verdict, 'class': kind})
 				ctx.count(f'applied:{operator}')
@@ -383,12 +387,14 @@ MANIFEST = {
 		'missing_bracket_make_const_rejected, missing_bracket_binary_fixed_rejected, missing_close_bracket_reserved_sizeof_rejected, '
 		'missing_close_bracket_size_rejected, missing_bracket_attribute_rejected and wrong_arity_fixed_rejected (instances), '
 		'bad_width_{array_element,sizeof,make_reserved,make_const}_rejected, missing_operand_{member,constant}_rejected, '
-		'missing_equals_{member,constant}_rejected, join_code_comment_rejected (a code line that swallowed the following comment line: plain '
+		'missing_equals_{member,constant}_rejected, condition_operator_not_a_spelling_rejected / near_miss_condition_operator_rejected (any operator text '
+		'that is not one of the four one-token spellings, e.g. notin, not  in, Equals), join_code_comment_rejected (a code line that swallowed the following comment line: plain '
 		'members, enum values, enum / struct headers, integer aliases with `#...` on the same line are accepted in no context); and '
 		'on printed documents empty_struct_rejected and dedented_member_rejected (with member_outside_declaration_rejected). The operators '
 		'themselves are defined in Model/Cats/Corrupt.lean. Model and operators are tied to catbuffer.lark / CatsLarkParser.py by a differential '
 		'run: every shipped .cats file and generated documents x 14 operators x applicable sites must be rejected by lark with a position; x 3 '
-		'operators that move a line end (join-lines, join-lines-flush, split-line), where lark must reject exactly what the Lean language model rejects; and '
+		'operators that move a line end (join-lines, join-lines-flush, split-line) and 3 near-miss operators (near-miss-spacing, respace, '
+		'near-miss-word), where lark must reject exactly what the Lean language model rejects; and '
 		'through `python -m catparser` a corrupted file reached by import must give a non-zero exit status and no output file.'),
 	'level_note': (
 		'Trusted: Lean kernel + {propext, Classical.choice, Quot.sound}; hand-written model and operator definitions tied by differential execution '
